@@ -32,7 +32,7 @@ func eqs(a, b []string) bool {
 }
 
 func checkWord(s string) *mc.Failure {
-	return mc.Guard(func() *mc.Failure {
+	return mc.GuardT("words", wcase{mc.BStr(s)}, func() *mc.Failure {
 		q := shell.Quote(s)
 		got, ok := shell.Split(q)
 		if !ok || len(got) != 1 || got[0] != s {
@@ -64,8 +64,16 @@ func (l lcase) strs() []string {
 	return out
 }
 
+func listCase(ss []string) lcase {
+	var l lcase
+	for _, s := range ss {
+		l.SS = append(l.SS, mc.BStr(s))
+	}
+	return l
+}
+
 func checkList(ss []string) *mc.Failure {
-	return mc.Guard(func() *mc.Failure {
+	return mc.GuardT("lists", listCase(ss), func() *mc.Failure {
 		j := shell.Join(ss)
 		got, ok := shell.Split(j)
 		if !ok || !eqs(got, ss) && !(len(ss) == 0 && len(got) == 0) {
@@ -131,7 +139,7 @@ type seqCase struct {
 }
 
 func checkSeq(sc seqCase) *mc.Failure {
-	return mc.Guard(func() *mc.Failure {
+	return mc.GuardT("call-sequences", sc, func() *mc.Failure {
 		for round := 0; round < 3; round++ {
 			var results []string
 			for _, c := range sc.Calls {
